@@ -30,6 +30,8 @@ func c09(c *Ctx) {
 	c09R7(c)
 	// what the GC releases is owned under the key it releases with (shared rule)
 	c05R4(c)
+	// what a GC pass writes (the demoted sticky flag, the deleted record) reaches the disk (shared rule)
+	c05R3(c)
 }
 
 func c09R1(c *Ctx) {
